@@ -128,6 +128,7 @@ type c03msg struct {
 	rxConn      int  // connection on which the client last received it
 	recConn     int  // connection on which the client last sent PUBREC for it (-1 never)
 	carried     bool // its PUBACK was pipelined behind the CONNECT of a new connection: the broker may process it before or after its retransmission
+	seq         int  // order of first receipt
 }
 
 func oracleC03(p *sim.Plan, out *sim.Outcome) []sim.Violation {
@@ -168,6 +169,7 @@ func oracleC03(p *sim.Plan, out *sim.Outcome) []sim.Violation {
 			}
 		}
 	}
+	nseq := 0
 	seen := map[string]bool{}
 	completed := map[string]bool{}  // final ack sent and confirmed by a quiescent point on a live connection
 	var pendingConfirm []*c03msg    // final ack sent, connection still up, waiting for a quiescent point
@@ -245,9 +247,16 @@ func oracleC03(p *sim.Plan, out *sim.Outcome) []sim.Violation {
 			if r.Conn == curConn {
 				for _, m := range pendingConfirm {
 					maybeAcked[m.payload] = true
-					// the broker may not have seen the ack: it may legitimately retransmit
+					// the broker may not have seen the ack: it may legitimately retransmit — at its original place
 					m.ackSent = true
-					unacked = append(unacked, m)
+					at := len(unacked)
+					for i, x := range unacked {
+						if x.seq > m.seq {
+							at = i
+							break
+						}
+					}
+					unacked = append(unacked[:at:at], append([]*c03msg{m}, unacked[at:]...)...)
 				}
 				pendingConfirm = nil
 				inPrefix = false
@@ -371,7 +380,8 @@ func oracleC03(p *sim.Plan, out *sim.Outcome) []sim.Violation {
 					}
 				}
 				if m == nil {
-					m = &c03msg{pid: pk.PID, payload: pl, qos: pk.QoS, state: "pub", recConn: -1}
+					nseq++
+					m = &c03msg{pid: pk.PID, payload: pl, qos: pk.QoS, state: "pub", recConn: -1, seq: nseq}
 					unacked = append(unacked, m)
 				}
 				if !m.carried {
